@@ -154,7 +154,7 @@ pub fn replay(args: &[String]) {
     s.finish();
 }
 
-const NAMES: &[&str] = &["a", "b", "c", "p", "pq", "p::a", "p::b", "p::c::d", "q::a", "näme", "x y", "1"];
+const NAMES: &[&str] = &["a", "b", "c", "p", "pq", "p::a", "p::b", "p::c::d", "q::a", "pq::a", "p_x::b", "näme", "x y", "1"];
 pub fn record(args: &[String]) {
     let seed: u64 = args[0].parse().unwrap();
     let nhist: usize = args[1].parse().unwrap();
